@@ -34,6 +34,7 @@ func Main(args []string) int {
 	verif := fs.String("verif", envOr("RG_VERIF", "/verif"), "verif root (evidence, known findings)")
 	explain := fs.String("explain", "", "replay file to explain (re-derives on current tree)")
 	list := fs.Bool("list", false, "list all obligations")
+	props := fs.Bool("props", false, "print the property ids that have checks")
 	if err := fs.Parse(args); err != nil {
 		return 2
 	}
@@ -43,6 +44,17 @@ func Main(args []string) int {
 	seed, _ := strconv.Atoi(os.Getenv("VERIF_SEED"))
 	_ = explain
 	specs := Specs()
+	if *props {
+		var ids []string
+		for id := range specs {
+			ids = append(ids, id)
+		}
+		sort.Strings(ids)
+		for _, id := range ids {
+			fmt.Println(id)
+		}
+		return 0
+	}
 	var ids []string
 	if *prop == "all" {
 		for id := range specs {
